@@ -18,6 +18,15 @@ type c01page struct {
 	Role  c01role
 }
 
+type c01strer struct{ s string } // prints itself: plain text, not trusted HTML
+
+func (x c01strer) String() string { return x.s }
+
+type c01both struct{ s string } // HTMLer and Stringer: HTML() decides
+
+func (x c01both) String() string      { return "str:" + x.s }
+func (x c01both) HTML() template.HTML { return template.HTML(x.s) }
+
 type route struct {
 	pre  string // statements before the output position
 	expr string // expression in output position (uses X for the inner expression)
@@ -191,13 +200,20 @@ func init() {
 		// plain or named string is escaped, wherever it is read from
 		for _, p := range payloads {
 			pg := c01page{Body: template.HTML(p), Title: p, Role: c01role(p)}
-			extra := map[string]interface{}{"pg": pg, "ppg": &pg, "pgs": []c01page{pg}, "pgm": map[string]c01page{"k": pg}, "pgi": []interface{}{pg, &pg}}
+			extra := map[string]interface{}{"pg": pg, "ppg": &pg, "pgs": []c01page{pg}, "pgm": map[string]c01page{"k": pg}, "pgi": []interface{}{pg, &pg},
+				"sr": c01strer{p}, "psr": &c01strer{p}, "srs": []interface{}{c01strer{p}}, "both": c01both{p}, "ps": p}
 			esc := template.HTMLEscapeString(p)
 			for _, t := range []struct{ tmpl, want string }{
 				{"[[<%= pg.Body %>]]", p}, {"[[<%= ppg.Body %>]]", p}, {"[[<%= pgs[0].Body %>]]", p}, {"[[<%= pgm[\"k\"].Body %>]]", p},
 				{"[[<%= pgi[1].Body %>]]", p}, {"<% let b = pg.Body %>[[<%= b %>]]", p}, {"[[<%= for (x) in pgs { %><%= x.Body %><% } %>]]", p},
 				{"[[<%= pg.Title %>]]", esc}, {"[[<%= ppg.Title %>]]", esc}, {"[[<%= pg.Role %>]]", "?" + esc},
-				{"[[<%= pgs[0].Role %>]]", "?" + esc}, {"<% let r = pg.Role %>[[<%= r %>]]", "?" + esc}, {"[[<%= for (x) in pgi { %><%= x.Title %><% } %>]]", esc + esc},
+				{"[[<%= pgs[0].Role %>]]", "?" + esc},
+				// a value that prints itself (fmt.Stringer) is text; one that is also an HTMLer is trusted HTML
+				{"[[<%= sr %>]]", esc}, {"[[<%= psr %>]]", esc}, {"[[<%= for (x) in srs { %><%= x %><% } %>]]", esc}, {"<% let q = sr %>[[<%= q %>]]", esc},
+				{"[[<%= both %>]]", p}, {"<% let q = both %>[[<%= q %>]]", p},
+				// debug / inspect print data: only the pre tags are markup
+				{"[[<%= debug(ps) %>]]", "<pre>" + esc + "</pre>"}, {"[[<%= debug(sr) %>]]", "<pre>" + template.HTMLEscapeString(fmt.Sprintf("%+v", c01strer{p})) + "</pre>"},
+				{"[[<%= inspect(ps) %>]]", esc}, {"<% let r = pg.Role %>[[<%= r %>]]", "?" + esc}, {"[[<%= for (x) in pgi { %><%= x.Title %><% } %>]]", esc + esc},
 			} {
 				c := RCase{Tmpl: t.tmpl}
 				o := runRenderExtra(c, extra)
